@@ -512,29 +512,12 @@ impl Xot {
     ///
     /// Returns `None` if no prefix is defined for the namespace.
     pub fn prefix_for_namespace(&self, node: Node, namespace: NamespaceId) -> Option<PrefixId> {
-        let mut seen = HashSet::default();
-
-        for ancestor in self.ancestors(node) {
-            for (key, value) in self.namespaces(ancestor).iter() {
-                if seen.contains(&key) {
-                    return None;
-                }
-                seen.insert(key);
-                if *value == namespace {
-                    return Some(key);
-                }
-            }
-        }
-        for (key, value) in self.base_prefixes() {
-            if seen.contains(&key) {
-                return None;
-            }
-            seen.insert(key);
-            if value == namespace {
-                return Some(key);
-            }
-        }
-        None
+        // the bindings in scope, nearest declaration of each prefix first; a
+        // shadowed outer declaration does not hide other prefixes bound to
+        // the namespace
+        self.namespaces_in_scope(node)
+            .find(|(_, ns)| *ns == namespace)
+            .map(|(prefix, _)| prefix)
     }
 
     /// Find namespace for prefix in node or ancestors.
